@@ -603,26 +603,24 @@ Theorem tick_spec s :
              /\ jobs s' = map (tick_job s) (jobs s).
 Proof.
   intros Hp r2 n b Hl.
-  pose proof (tick_jobs s) as Hj. pose proof (SemB_sn) as _.
-  assert (Hn : nprocs (fst (do_tick s)) = nprocs s).
-  { unfold do_tick. destruct (join_exited_fields s) as (_ & B & _).
-    destruct (join_exited s) as [s1 codes]. cbn [fst] in B.
-    pose proof (nprocs_repopulate (Z.to_nat (nprocs s1 - Z.of_nat (length (wlist s1)))) 0 codes s1) as H.
-    destruct (repopulate _ 0 codes s1) as [s2 r]. cbn [fst] in H. destruct r; cbn [fst]; congruence. }
+  pose proof (tick_jobs s) as Hj.
   unfold do_tick in *. destruct (join_exited_fields s) as (A & B & C & D & E & F & G).
-  destruct (join_exited s) as [s1 codes]. cbn [fst snd] in *. subst codes.
+  destruct (join_exited s) as [s1 codes]. cbn [fst snd] in A, B, C, D, E, F, G. subst codes.
   assert (Hm : Z.to_nat (nprocs s1 - Z.of_nat (length (wlist s1))) = missing s)
     by (unfold missing; rewrite A, B; reflexivity).
   rewrite Hm in *.
   assert (Hg : (0 < missing s)%nat -> Z.of_nat (length (wlist s1)) + Z.of_nat (missing s) <= nprocs s1)
     by (unfold missing; rewrite A, B; lia).
   rewrite <- F, <- E in Hl.
-  destruct (repopulate_spec (missing s) 0 (pass_codes s) s1 ltac:(congruence) Hg r2 n b Hl)
+  assert (Hp1 : pstate s1 = 0) by (rewrite C; exact Hp).
+  destruct (repopulate_spec (missing s) 0 (pass_codes s) s1 Hp1 Hg r2 n b Hl)
     as (s2 & E2 & R2 & W2 & P2 & _).
-  rewrite E2 in *. rewrite A, D in *.
-  destruct b.
-  - exists s2. cbn [fst] in *. auto 7.
-  - exists (release_n s2 (length (pass_codes s))). cbn [fst] in *. auto 7.
+  pose proof (nprocs_repopulate (missing s) 0 (pass_codes s) s1) as N2.
+  rewrite E2 in *. cbn [fst] in N2. rewrite A, D in W2. rewrite D in P2. rewrite B in N2.
+  destruct b; cbn [fst] in Hj.
+  - exists s2. repeat (split; [first [assumption|reflexivity]|]). exact Hj.
+  - exists (release_n s2 (length (pass_codes s))). unfold release_n in *.
+    cbn [rst wlist procs nprocs jobs with_sem] in *. repeat (split; [first [assumption|reflexivity]|]). exact Hj.
 Qed.
 
 (* ================================================================ 2. C09: the lifted pass theorem *)
@@ -770,4 +768,529 @@ Proof.
     destruct (repopulate _ 0 codes s1) as [s2 r]. cbn [fst] in H2.
     rewrite <- (exited_procs s s1 D). destruct r; cbn [fst]; exact H2. }
   unfold reaped in Hr. apply filter_In in Hr. destruct Hr as [_ Hr]. congruence.
+Qed.
+
+(* ================================================================ 3. C11 at pool level *)
+(* ---------------------------------------------------------------- (b) who touches the limiter *)
+Definition limiter_event (e : event) : bool :=
+  match e with ETick | ETickClose _ | EAck _ _ _ | EStaleAck _ => true | _ => false end.
+
+Lemma rst_shrink_loop : forall ws i n s, rst (fst (shrink_loop ws i n s)) = rst s.
+Proof.
+  induction ws as [|p r IH]; intros i n s; cbn [shrink_loop fst]; [reflexivity|].
+  destruct (n - 1 <=? i); cbn [fst]; [reflexivity|]. rewrite IH. reflexivity.
+Qed.
+
+Lemma rst_join_exited s : rst (fst (join_exited s)) = rst s.
+Proof. apply (join_exited_fields s). Qed.
+
+(* only supervision passes and acknowledgements ever touch the restart limiter *)
+Theorem limiter_frame s e : limiter_event e = false -> rst (fst (step s e)) = rst s.
+Proof.
+  intros He. destruct (frame_event e) eqn:Ef.
+  - exact (f_equal snd (fr_step s e Ef)).
+  - destruct e; try discriminate; unfold step; cbn [fst].
+    + unfold do_terminate_job. destruct (in_pool _ p); reflexivity.
+    + reflexivity.
+    + unfold do_shrink. destruct (inactive _) as [|w ws]; [reflexivity|].
+      destruct (LaxSem.value _ <? _); [reflexivity|]. rewrite rst_shrink_loop. reflexivity.
+    + unfold do_join_shutdown. destruct (wlist _); cbn [fst]; [reflexivity|].
+      apply (rst_join_exited (with_sigs s [])).
+Qed.
+
+(* an acknowledgement -- also one for a job that is no longer in the cache -- resets R *)
+Theorem ack_resets_limiter s j i p : rst (fst (step s (EAck j i p))) = Restart.ack (rst s).
+Proof.
+  unfold step, do_ack. destruct (cached _ j) as [x|]; [|reflexivity].
+  destruct (kind x); try reflexivity. destruct i; reflexivity.
+Qed.
+Theorem stale_ack_resets_limiter s p : rst (fst (step s (EStaleAck p))) = Restart.ack (rst s).
+Proof. reflexivity. Qed.
+
+(* a pass outside RUN state (after close()/terminate()) replaces nobody and leaves the limiter alone *)
+Lemma repopulate_not_running fuel i codes s : pstate s <> 0 -> repopulate fuel i codes s = (s, RNone).
+Proof.
+  intros Hp. destruct fuel; cbn [repopulate]; [reflexivity|].
+  replace (pstate s =? 0) with false by lia. reflexivity.
+Qed.
+
+Theorem tick_not_running s :
+  pstate s <> 0 ->
+  snd (do_tick s) = RNone /\ rst (fst (do_tick s)) = rst s /\ wlist (fst (do_tick s)) = kept s
+  /\ procs (fst (do_tick s)) = procs s.
+Proof.
+  intros Hp. unfold do_tick. destruct (join_exited_fields s) as (A & _ & C & D & E & _).
+  destruct (join_exited s) as [s1 codes]. cbn [fst] in *.
+  rewrite repopulate_not_running by congruence. cbn [fst snd]. unfold release_n.
+  cbn [rst wlist procs with_sem]. auto.
+Qed.
+
+Lemma tick_close_not_running s k : pstate s <> 0 -> do_tick_close s k = do_tick s.
+Proof.
+  intros Hp. unfold do_tick_close, do_tick. destruct (join_exited_fields s) as (_ & _ & C & _).
+  destruct (join_exited s) as [s1 codes]. cbn [fst] in *.
+  destruct (_ <=? k)%nat; [reflexivity|]. rewrite !repopulate_not_running by congruence.
+  unfold do_close. replace (pstate s1 =? 0) with false by lia. reflexivity.
+Qed.
+
+(* the pass during which close() is called from the start-up hook of its (k+1)-th worker *)
+Theorem tick_close_spec s k :
+  pstate s = 0 ->
+  forall r2 n b,
+    lim_loop (if (missing s <=? k)%nat then missing s else S k) 0 (pass_codes s) (now s) (rst s) = (r2, n, b) ->
+    exists s', do_tick_close s k = (s', if b then RExc 10 else RNone)
+               /\ rst s' = r2
+               /\ wlist s' = kept s ++ map Z.of_nat (seq (length (procs s)) n)
+               /\ length (procs s') = (length (procs s) + n)%nat
+               /\ nprocs s' = nprocs s.
+Proof.
+  intros Hp r2 n b Hl. unfold do_tick_close.
+  pose proof (tick_spec s Hp r2 n b) as Ht.
+  destruct (join_exited_fields s) as (A & B & C & D & E & F & G).
+  destruct (join_exited s) as [s1 codes]. cbn [fst snd] in A, B, C, D, E, F, G. subst codes.
+  assert (Hm : Z.to_nat (nprocs s1 - Z.of_nat (length (wlist s1))) = missing s)
+    by (unfold missing; rewrite A, B; reflexivity).
+  rewrite Hm. destruct (missing s <=? k)%nat eqn:Ek.
+  - destruct (Ht Hl) as (s' & H1 & H2 & H3 & H4 & H5 & _). exists s'. auto.
+  - apply Nat.leb_gt in Ek.
+    assert (Hg : (0 < S k)%nat -> Z.of_nat (length (wlist s1)) + Z.of_nat (S k) <= nprocs s1)
+      by (unfold missing in Ek; rewrite A, B; lia).
+    rewrite <- F, <- E in Hl.
+    assert (Hp1 : pstate s1 = 0) by (rewrite C; exact Hp).
+    destruct (repopulate_spec (S k) 0 (pass_codes s) s1 Hp1 Hg r2 n b Hl) as (s2 & E2 & R2 & W2 & P2 & _).
+    pose proof (nprocs_repopulate (S k) 0 (pass_codes s) s1) as N2.
+    rewrite E2 in *. cbn [fst] in N2. rewrite A, D in W2. rewrite D in P2. rewrite B in N2.
+    destruct b.
+    + exists s2. auto.
+    + exists (release_n (do_close s2) (length (pass_codes s))). unfold release_n, do_close.
+      destruct (pstate s2 =? 0); cbn [rst wlist procs nprocs with_sem with_pstate]; auto.
+Qed.
+
+(* the two kinds of supervision pass, uniformly: how many replacements the loop is asked for *)
+Definition pass_fuel (s : pool) (e : event) : option nat :=
+  match e with
+  | ETick => Some (missing s)
+  | ETickClose k => Some (if (missing s <=? k)%nat then missing s else S k)
+  | _ => None
+  end.
+
+Theorem pass_spec s e fuel :
+  pass_fuel s e = Some fuel -> pstate s = 0 ->
+  forall r2 n b, lim_loop fuel 0 (pass_codes s) (now s) (rst s) = (r2, n, b) ->
+  snd (step s e) = (if b then RExc 10 else RNone)
+  /\ rst (fst (step s e)) = r2
+  /\ wlist (fst (step s e)) = kept s ++ map Z.of_nat (seq (length (procs s)) n)
+  /\ length (procs (fst (step s e))) = (length (procs s) + n)%nat
+  /\ nprocs (fst (step s e)) = nprocs s.
+Proof.
+  intros Hf Hp r2 n b Hl. destruct e; try discriminate; cbn [pass_fuel] in Hf; inversion Hf; subst fuel; unfold step.
+  - destruct (tick_spec (with_sigs s []) Hp r2 n b Hl) as (s' & H1 & H2 & H3 & H4 & H5 & _).
+    rewrite H1. cbn [fst snd]. auto.
+  - destruct (tick_close_spec (with_sigs s []) k Hp r2 n b Hl) as (s' & H1 & H2 & H3 & H4 & H5).
+    rewrite H1. cbn [fst snd]. auto.
+Qed.
+
+Theorem pass_not_running s e fuel :
+  pass_fuel s e = Some fuel -> pstate s <> 0 ->
+  snd (step s e) = RNone /\ rst (fst (step s e)) = rst s /\ wlist (fst (step s e)) = kept s
+  /\ procs (fst (step s e)) = procs s.
+Proof.
+  intros Hf Hp. destruct e; try discriminate; unfold step.
+  - exact (tick_not_running (with_sigs s []) Hp).
+  - rewrite (tick_close_not_running (with_sigs s []) k Hp). exact (tick_not_running (with_sigs s []) Hp).
+Qed.
+
+(* ---------------------------------------------------------------- (a) the limiter invariant *)
+Lemma inv_lim_step m r now : 1 <= m -> Inv m r -> Inv m (fst (Restart.step r now)).
+Proof. intros Hm Hi. exact (inv_do_ev m r (Step now) Hm Hi). Qed.
+Lemma inv_lim_ack m r : 1 <= m -> Inv m r -> Inv m (Restart.ack r).
+Proof. intros Hm Hi. exact (inv_do_ev m r Ack Hm Hi). Qed.
+
+Lemma inv_repopulate m : forall fuel i codes s,
+    1 <= m -> Inv m (rst s) -> Inv m (rst (fst (repopulate fuel i codes s))).
+Proof.
+  induction fuel as [|f IH]; intros i codes s Hm Hi; cbn [repopulate]; [exact Hi|].
+  destruct (negb (pstate s =? 0)); [exact Hi|].
+  match goal with |- context [if ?c then Restart.step (rst s) (now s) else (rst s, false)] =>
+    assert (Hr : Inv m (fst (if c then Restart.step (rst s) (now s) else (rst s, false))))
+      by (destruct c; [apply inv_lim_step; assumption|exact Hi]);
+    destruct (if c then Restart.step (rst s) (now s) else (rst s, false)) as [r raised] end.
+  cbn [fst] in Hr.
+  destruct raised; [exact Hr|].
+  destruct (avail_index (with_rst s r)) as [ix|]; [|exact Hr].
+  apply IH; [exact Hm|exact Hr].
+Qed.
+
+Lemma inv_do_tick m s : 1 <= m -> Inv m (rst s) -> Inv m (rst (fst (do_tick s))).
+Proof.
+  intros Hm Hi. unfold do_tick. pose proof (rst_join_exited s) as E.
+  destruct (join_exited s) as [s1 codes]. cbn [fst] in E. rewrite <- E in Hi.
+  pose proof (inv_repopulate m (Z.to_nat (nprocs s1 - Z.of_nat (length (wlist s1)))) 0 codes s1 Hm Hi) as H.
+  destruct (repopulate _ 0 codes s1) as [s2 r]. cbn [fst] in H. destruct r; cbn [fst]; exact H.
+Qed.
+
+Lemma inv_do_tick_close m s k : 1 <= m -> Inv m (rst s) -> Inv m (rst (fst (do_tick_close s k))).
+Proof.
+  intros Hm Hi. pose proof (inv_do_tick m s Hm Hi) as Ht. unfold do_tick_close.
+  pose proof (rst_join_exited s) as E.
+  destruct (join_exited s) as [s1 codes]. cbn [fst] in E. rewrite <- E in Hi.
+  destruct (_ <=? k)%nat; [exact Ht|].
+  pose proof (inv_repopulate m (S k) 0 codes s1 Hm Hi) as H.
+  destruct (repopulate (S k) 0 codes s1) as [s2 r]. cbn [fst] in H. destruct r; cbn [fst]; try exact H.
+  unfold release_n, do_close. destruct (pstate s2 =? 0); exact H.
+Qed.
+
+Theorem limiter_inv_step m s e : 1 <= m -> Inv m (rst s) -> Inv m (rst (fst (step s e))).
+Proof.
+  intros Hm Hi. destruct (limiter_event e) eqn:El.
+  - destruct e; try discriminate.
+    + rewrite ack_resets_limiter. apply inv_lim_ack; assumption.
+    + rewrite stale_ack_resets_limiter. apply inv_lim_ack; assumption.
+    + apply (inv_do_tick m (with_sigs s []) Hm Hi).
+    + apply (inv_do_tick_close m (with_sigs s []) k Hm Hi).
+  - rewrite limiter_frame by exact El. exact Hi.
+Qed.
+
+Lemma rst_start_n : forall n i s, rst (start_n n i s) = rst s.
+Proof. induction n as [|n IH]; intros i s; cbn [start_n]; [reflexivity|]. rewrite IH. reflexivity. Qed.
+
+(* the window length the pool hands to its limiter: restart_state(max_restarts, max_restart_freq or 1) *)
+Definition cfg_maxt (c : config) : Z :=
+  match py_or (Some (c_maxt c)) (Some 1) with Some v => v | None => 1 end.
+
+Lemma rst_init c : rst (init c) = rs_init (c_maxr c) (cfg_maxt c).
+Proof. unfold init. rewrite rst_start_n. reflexivity. Qed.
+
+Lemma limiter_inv_run_from m : forall tr s, 1 <= m -> Inv m (rst s) -> Inv m (rst (run_from s tr)).
+Proof.
+  unfold run_from. induction tr as [|e tr IH]; intros s Hm Hi; cbn; [exact Hi|].
+  apply IH; [exact Hm|]. apply limiter_inv_step; assumption.
+Qed.
+
+(* C11 (a): with max_restarts = m >= 1 the pool's limiter satisfies the invariant of
+   RestartProofs in EVERY reachable state (so window_budget, step_admit, step_refuse apply to it):
+   its budget is the configured one and 0 <= R <= m *)
+Theorem pool_limiter_inv c tr m :
+  c_maxr c = Some m -> 1 <= m -> Inv m (rst (run c tr)).
+Proof.
+  intros Hc Hm. apply (limiter_inv_run_from m tr (init c) Hm). rewrite rst_init, Hc.
+  apply inv_init. exact Hm.
+Qed.
+
+(* the limiter's configuration never changes *)
+Theorem pool_limiter_config c tr :
+  maxR (rst (run c tr)) = c_maxr c /\ maxT (rst (run c tr)) = cfg_maxt c.
+Proof.
+  assert (Hstep : forall r now, maxR (fst (Restart.step r now)) = maxR r /\ maxT (fst (Restart.step r now)) = maxT r).
+  { intros r now. unfold Restart.step. destruct (window_expired r now); [cbn; auto|].
+    destruct (over_budget r && negb (R r =? 0)); cbn; auto. }
+  assert (Hrep : forall fuel i codes s,
+             maxR (rst (fst (repopulate fuel i codes s))) = maxR (rst s)
+             /\ maxT (rst (fst (repopulate fuel i codes s))) = maxT (rst s)).
+  { induction fuel as [|f IH]; intros i codes s; cbn [repopulate]; [auto|].
+    destruct (negb (pstate s =? 0)); [auto|].
+    match goal with |- context [if ?c then Restart.step (rst s) (now s) else (rst s, false)] =>
+      assert (Hr : maxR (fst (if c then Restart.step (rst s) (now s) else (rst s, false))) = maxR (rst s)
+                   /\ maxT (fst (if c then Restart.step (rst s) (now s) else (rst s, false))) = maxT (rst s))
+        by (destruct c; [apply Hstep|auto]);
+      destruct (if c then Restart.step (rst s) (now s) else (rst s, false)) as [r raised] end.
+    cbn [fst] in Hr. destruct raised; [exact Hr|].
+    destruct (avail_index (with_rst s r)) as [ix|]; [|exact Hr].
+    destruct (IH (S i) codes (start_worker (with_rst s r) ix)) as [A B]. cbn [rst start_worker with_rst] in A, B.
+    destruct Hr. split; congruence. }
+  assert (Htick : forall s, maxR (rst (fst (do_tick s))) = maxR (rst s) /\ maxT (rst (fst (do_tick s))) = maxT (rst s)).
+  { intros s. unfold do_tick. pose proof (rst_join_exited s) as E.
+    destruct (join_exited s) as [s1 codes]. cbn [fst] in E. rewrite <- E.
+    pose proof (Hrep (Z.to_nat (nprocs s1 - Z.of_nat (length (wlist s1)))) 0%nat codes s1) as H.
+    destruct (repopulate _ 0 codes s1) as [s2 r]. cbn [fst] in H. destruct r; cbn [fst]; exact H. }
+  assert (Hone : forall s e, maxR (rst (fst (step s e))) = maxR (rst s) /\ maxT (rst (fst (step s e))) = maxT (rst s)).
+  { intros s e. destruct (limiter_event e) eqn:El; [|rewrite limiter_frame by exact El; auto].
+    destruct e; try discriminate.
+    - rewrite ack_resets_limiter. cbn. auto.
+    - rewrite stale_ack_resets_limiter. cbn. auto.
+    - apply (Htick (with_sigs s [])).
+    - unfold step, do_tick_close. pose proof (Htick (with_sigs s [])) as Ht.
+      pose proof (rst_join_exited (with_sigs s [])) as E.
+      destruct (join_exited (with_sigs s [])) as [s1 codes]. cbn [fst] in E.
+      destruct (_ <=? k)%nat; [exact Ht|].
+      change (rst s) with (rst (with_sigs s [])). rewrite <- E.
+      pose proof (Hrep (S k) 0%nat codes s1) as H.
+      destruct (repopulate (S k) 0 codes s1) as [s2 r]. cbn [fst] in H. destruct r; cbn [fst]; try exact H.
+      unfold release_n, do_close. destruct (pstate s2 =? 0); exact H. }
+  assert (Hrun : forall tr0 s, maxR (rst (fold_left (fun s e => fst (step s e)) tr0 s)) = maxR (rst s)
+                               /\ maxT (rst (fold_left (fun s e => fst (step s e)) tr0 s)) = maxT (rst s)).
+  { induction tr0 as [|e tr0 IH]; intros s; cbn; [auto|].
+    destruct (IH (fst (step s e))) as [A B]. destruct (Hone s e) as [C D]. split; congruence. }
+  unfold run. destruct (Hrun tr (init c)) as [A B]. rewrite A, B, rst_init. cbn. auto.
+Qed.
+
+(* ---------------------------------------------------------------- (b) how a pass charges the limiter *)
+(* how many of the iterations i, i+1, ..., i+n-1 of the loop consult the limiter *)
+Definition n_charged (codes : list Z) (i n : nat) : nat := length (filter (charged codes) (seq i n)).
+
+Lemma n_charged_S codes i n :
+  n_charged codes i (S n) = ((if charged codes i then 1 else 0) + n_charged codes (S i) n)%nat.
+Proof. unfold n_charged. cbn [seq filter]. destruct (charged codes i); reflexivity. Qed.
+
+Lemma n_charged_app codes i n k :
+  n_charged codes i (n + k) = (n_charged codes i n + n_charged codes (i + n) k)%nat.
+Proof. unfold n_charged. rewrite seq_app, filter_app, app_length. reflexivity. Qed.
+
+(* the limiter after the loop is the limiter `step`ped once, at the pool's clock, for every charged
+   iteration that started a worker, plus once more if the loop was stopped by a raise; all those
+   calls but the last were admitted *)
+Theorem lim_loop_steps : forall fuel i codes now r r2 n b,
+    lim_loop fuel i codes now r = (r2, n, b) ->
+    steps r (repeat now (n_charged codes i n + (if b then 1 else 0)))
+    = (r2, repeat false (n_charged codes i n) ++ (if b then [true] else [])).
+Proof.
+  induction fuel as [|f IH]; intros i codes now r r2 n b H; cbn [lim_loop] in H.
+  - inversion H; subst. reflexivity.
+  - destruct (charged codes i) eqn:Ec.
+    + destruct (Restart.step r now) as [r1 raised] eqn:Es. destruct raised.
+      * inversion H; subst. cbn [n_charged seq filter length Nat.add repeat steps app]. rewrite Es. reflexivity.
+      * destruct (lim_loop f (S i) codes now r1) as [[r2' n'] b'] eqn:El. inversion H; subst.
+        rewrite n_charged_S, Ec. cbn [Nat.add repeat steps app]. rewrite Es.
+        rewrite (IH _ _ _ _ _ _ _ El). reflexivity.
+    + destruct (lim_loop f (S i) codes now r) as [[r2' n'] b'] eqn:El. inversion H; subst.
+      rewrite n_charged_S, Ec. cbn [Nat.add]. apply (IH _ _ _ _ _ _ _ El).
+Qed.
+
+(* ---------------------------------------------------------------- (c) the window budget *)
+Lemma steps_app : forall l1 l2 s,
+    steps s (l1 ++ l2) = let (s1, o1) := steps s l1 in let (s2, o2) := steps s1 l2 in (s2, o1 ++ o2).
+Proof.
+  induction l1 as [|a l1 IH]; intros l2 s; cbn [app steps].
+  - destruct (steps s l2); reflexivity.
+  - destruct (Restart.step s a) as [sa oa]. rewrite IH.
+    destruct (steps sa l1) as [sb ob]. destruct (steps sb l2); reflexivity.
+Qed.
+
+(* window_budget / steps_admit_all specialised to one clock reading (all replacements of one pass
+   are charged at the same time) *)
+Lemma window_admits m r now k :
+  Inv m r -> in_window r now -> R r + Z.of_nat k <= m ->
+  steps r (repeat now k) = (mk_rs (R r + Z.of_nat k) (T r) (maxR r) (maxT r), repeat false k).
+Proof.
+  intros Hi Hw Hk. pose proof (steps_admit_all m (repeat now k) r Hi) as H.
+  rewrite (repeat_length now k) in H. apply H; [|exact Hk].
+  intros x Hx. apply repeat_spec in Hx. subst x. exact Hw.
+Qed.
+
+Lemma window_refuses m r now k :
+  1 <= m -> Inv m r -> in_window r now -> Z.of_nat k = m - R r ->
+  steps r (repeat now (k + 1)) = (mk_rs 0 (T r) (maxR r) (maxT r), repeat false k ++ [true]).
+Proof.
+  intros Hm Hi Hw Hk. rewrite repeat_app. cbn [repeat].
+  pose proof (window_budget m r (repeat now k) now Hm Hi) as H.
+  rewrite (repeat_length now k) in H. apply H; [|exact Hk].
+  intros x Hx. apply in_app_or in Hx. destruct Hx as [Hx|[<-|[]]]; [|exact Hw].
+  apply repeat_spec in Hx. subst x. exact Hw.
+Qed.
+
+(* more calls than the budget left: the call number (m - R) + 1 raises *)
+Lemma window_overrun m r now k :
+  1 <= m -> Inv m r -> in_window r now -> m - R r < Z.of_nat k ->
+  nth (Z.to_nat (m - R r)) (snd (steps r (repeat now k))) false = true.
+Proof.
+  intros Hm Hi Hw Hk. destruct Hi as [Hmr Hr].
+  set (k0 := Z.to_nat (m - R r)).
+  replace k with ((k0 + 1) + (k - (k0 + 1)))%nat by lia.
+  rewrite repeat_app, steps_app.
+  rewrite (window_refuses m r now k0 Hm (conj Hmr Hr) Hw) by (unfold k0; lia).
+  destruct (steps _ (repeat now (k - (k0 + 1)))) as [s2 o2]. cbn [snd].
+  rewrite app_nth1 by (rewrite app_length, repeat_length; cbn; lia).
+  rewrite app_nth2 by (rewrite repeat_length; lia).
+  rewrite repeat_length, Nat.sub_diag. reflexivity.
+Qed.
+
+(* what the replacement loop does inside one restart window, derived from window_budget:
+   all charged replacements are admitted while the budget lasts; when the loop needs more of them
+   than m - R, it raises at the first one beyond, having started exactly m - R charged ones *)
+Lemma lim_loop_window m fuel i codes now r r2 n b :
+  1 <= m -> Inv m r -> in_window r now ->
+  lim_loop fuel i codes now r = (r2, n, b) ->
+  if b
+  then m - R r < Z.of_nat (n_charged codes i fuel)
+       /\ Z.of_nat (n_charged codes i n) = m - R r /\ (n < fuel)%nat
+       /\ r2 = mk_rs 0 (T r) (maxR r) (maxT r)
+  else Z.of_nat (n_charged codes i fuel) <= m - R r /\ n = fuel
+       /\ r2 = mk_rs (R r + Z.of_nat (n_charged codes i fuel)) (T r) (maxR r) (maxT r).
+Proof.
+  intros Hm Hi Hw Hl.
+  pose proof (lim_loop_steps _ _ _ _ _ _ _ _ Hl) as Hs.
+  destruct (lim_loop_started _ _ _ _ _ _ _ _ Hl) as (Hn & Hb0 & Hb1).
+  assert (Hr : 0 <= R r <= m) by apply Hi.
+  set (a := n_charged codes i n) in *.
+  destruct b.
+  - destruct (Hb1 eq_refl) as [Hlt Hch].
+    assert (Ha : Z.of_nat a = m - R r).
+    { destruct (Z.lt_trichotomy (Z.of_nat a) (m - R r)) as [H|[H|H]]; [exfalso|exact H|exfalso].
+      - rewrite (window_admits m r now (a + 1) Hi Hw) in Hs by lia.
+        inversion Hs as [[_ Ho]]. rewrite repeat_app in Ho. apply app_inv_head in Ho. discriminate.
+      - pose proof (window_overrun m r now (a + 1) Hm Hi Hw ltac:(lia)) as Ho.
+        rewrite Hs in Ho. cbn [snd] in Ho.
+        rewrite app_nth1 in Ho by (rewrite repeat_length; lia).
+        rewrite nth_repeat in Ho. discriminate. }
+    split; [|split; [exact Ha|split; [exact Hlt|]]].
+    + replace fuel with (n + S (fuel - n - 1))%nat by lia. rewrite n_charged_app, n_charged_S, Hch.
+      fold a. lia.
+    + rewrite (window_refuses m r now a Hm Hi Hw Ha) in Hs. inversion Hs. reflexivity.
+  - rewrite (Hb0 eq_refl) in *. rewrite Nat.add_0_r, app_nil_r in Hs.
+    assert (Ha : Z.of_nat a <= m - R r).
+    { destruct (Z.le_gt_cases (Z.of_nat a) (m - R r)) as [H|H]; [exact H|exfalso].
+      pose proof (window_overrun m r now a Hm Hi Hw ltac:(lia)) as Ho.
+      rewrite Hs in Ho. cbn [snd] in Ho. rewrite nth_repeat in Ho. discriminate. }
+    split; [exact Ha|]. split; [reflexivity|].
+    rewrite (window_admits m r now a Hi Hw) in Hs by lia. inversion Hs. reflexivity.
+Qed.
+
+(* the number of replacements an event starts for workers whose exit was not clean (including,
+   when more workers are missing than were reaped, those for which no exit status is on record) *)
+Definition abn_started (s : pool) (e : event) : nat :=
+  match pass_fuel s e with
+  | Some fuel =>
+    if pstate s =? 0
+    then let '(_, n, _) := lim_loop fuel 0 (pass_codes s) (now s) (rst s) in n_charged (pass_codes s) 0 n
+    else O
+  | None => O
+  end.
+
+(* C11 (c), one pass.  In RUN state, inside the current restart window, with max_restarts = m:
+   a pass that needs K charged replacements
+     - when K <= m - R: does not raise, starts all it was asked for, and has then used K of the budget;
+     - when K > m - R: raises RestartFreqExceeded (RExc 10) after starting exactly m - R charged
+       replacements (and the uncharged ones before the one refused), fewer workers than it was
+       asked for, and R is back to 0 with the window unchanged. *)
+Theorem pass_budget m s e fuel :
+  pass_fuel s e = Some fuel -> pstate s = 0 ->
+  1 <= m -> Inv m (rst s) -> in_window (rst s) (now s) ->
+  let K := n_charged (pass_codes s) 0 fuel in
+  (Z.of_nat K <= m - R (rst s) ->
+   snd (step s e) = RNone
+   /\ rst (fst (step s e)) = mk_rs (R (rst s) + Z.of_nat K) (T (rst s)) (maxR (rst s)) (maxT (rst s))
+   /\ abn_started s e = K
+   /\ length (procs (fst (step s e))) = (length (procs s) + fuel)%nat)
+  /\ (m - R (rst s) < Z.of_nat K ->
+      snd (step s e) = RExc 10
+      /\ rst (fst (step s e)) = mk_rs 0 (T (rst s)) (maxR (rst s)) (maxT (rst s))
+      /\ Z.of_nat (abn_started s e) = m - R (rst s)
+      /\ (length (procs (fst (step s e))) < length (procs s) + fuel)%nat).
+Proof.
+  intros Hf Hp Hm Hi Hw K.
+  destruct (lim_loop fuel 0 (pass_codes s) (now s) (rst s)) as [[r2 n] b] eqn:El.
+  destruct (pass_spec s e fuel Hf Hp r2 n b El) as (S1 & S2 & _ & S4 & _).
+  pose proof (lim_loop_window m fuel 0 (pass_codes s) (now s) (rst s) r2 n b Hm Hi Hw El) as Hb.
+  assert (Ha : abn_started s e = n_charged (pass_codes s) 0 n).
+  { unfold abn_started. rewrite Hf, Hp, El. reflexivity. }
+  fold K in Hb. destruct b.
+  - destruct Hb as (B1 & B2 & B3 & B4). split; [intros H; exfalso; lia|]. intros _.
+    rewrite S1, S2, S4, Ha. repeat split; auto. lia.
+  - destruct Hb as (B1 & B2 & B3). split; [|intros H; exfalso; lia]. intros _.
+    rewrite S1, S2, S4, Ha, B2. auto.
+Qed.
+
+(* ---- histories *)
+Definition is_ack (e : event) : bool :=
+  match e with EAck _ _ _ | EStaleAck _ => true | _ => false end.
+
+(* a stretch of history inside one restart window: no acknowledgement arrives, and every pass made
+   in RUN state happens while the limiter's window is open and does not raise *)
+Fixpoint calm (s : pool) (tr : list event) : Prop :=
+  match tr with
+  | [] => True
+  | e :: r =>
+    is_ack e = false
+    /\ (pass_fuel s e <> None -> pstate s = 0 -> in_window (rst s) (now s) /\ snd (step s e) <> RExc 10)
+    /\ calm (fst (step s e)) r
+  end.
+
+Fixpoint abn_total (s : pool) (tr : list event) : nat :=
+  match tr with
+  | [] => O
+  | e :: r => (abn_started s e + abn_total (fst (step s e)) r)%nat
+  end.
+
+Lemma abn_total_app : forall tr tr' s,
+    abn_total s (tr ++ tr') = (abn_total s tr + abn_total (run_from s tr) tr')%nat.
+Proof.
+  unfold run_from. induction tr as [|e tr IH]; intros tr' s; cbn [app abn_total fold_left]; [reflexivity|].
+  rewrite IH. lia.
+Qed.
+
+Lemma calm_step m s e :
+  1 <= m -> Inv m (rst s) -> is_ack e = false ->
+  (pass_fuel s e <> None -> pstate s = 0 -> in_window (rst s) (now s) /\ snd (step s e) <> RExc 10) ->
+  R (rst (fst (step s e))) = R (rst s) + Z.of_nat (abn_started s e)
+  /\ T (rst (fst (step s e))) = T (rst s).
+Proof.
+  intros Hm Hi Ha Hc. destruct (pass_fuel s e) as [fuel|] eqn:Ef.
+  - destruct (Z.eq_dec (pstate s) 0) as [Hp|Hp].
+    + destruct (Hc ltac:(discriminate) Hp) as [Hw Hne].
+      destruct (pass_budget m s e fuel Ef Hp Hm Hi Hw) as [H1 H2].
+      destruct (Z.le_gt_cases (Z.of_nat (n_charged (pass_codes s) 0 fuel)) (m - R (rst s))) as [H|H].
+      * destruct (H1 H) as (_ & A & B & _). rewrite A, B. cbn. auto.
+      * destruct (H2 H) as (A & _). congruence.
+    + destruct (pass_not_running s e fuel Ef Hp) as (_ & A & _). rewrite A.
+      unfold abn_started. rewrite Ef. replace (pstate s =? 0) with false by lia. split; [lia|reflexivity].
+  - assert (Hl : limiter_event e = false) by (destruct e; try reflexivity; discriminate).
+    rewrite (limiter_frame s e Hl). unfold abn_started. rewrite Ef. split; [lia|reflexivity].
+Qed.
+
+(* C11 (c), histories.  From any state whose limiter satisfies the invariant (every reachable
+   state does: pool_limiter_inv), over any stretch of events inside one window -- no
+   acknowledgement, every RUN-state pass made while the window is open, none of them raising --
+   the counter R counts exactly the replacements started for abnormally exited workers, the window
+   does not move, and so AT MOST m - R <= max_restarts such replacements are started *)
+Theorem window_budget_history m : forall tr s,
+    1 <= m -> Inv m (rst s) -> calm s tr ->
+    R (rst (run_from s tr)) = R (rst s) + Z.of_nat (abn_total s tr)
+    /\ T (rst (run_from s tr)) = T (rst s)
+    /\ Z.of_nat (abn_total s tr) <= m - R (rst s) <= m.
+Proof.
+  intros tr s Hm Hi Hc.
+  assert (H : R (rst (run_from s tr)) = R (rst s) + Z.of_nat (abn_total s tr)
+              /\ T (rst (run_from s tr)) = T (rst s)).
+  { revert s Hi Hc. unfold run_from. induction tr as [|e tr IH]; intros s Hi Hc; cbn [fold_left abn_total]; [split; [lia|reflexivity]|].
+    destruct Hc as (Ha & Hp & Hc).
+    destruct (calm_step m s e Hm Hi Ha Hp) as [A B].
+    destruct (IH (fst (step s e)) (limiter_inv_step m s e Hm Hi) Hc) as [C D].
+    split; [lia|congruence]. }
+  destruct H as [A B]. split; [exact A|]. split; [exact B|].
+  pose proof (limiter_inv_run_from m tr s Hm Hi) as [_ Hr]. destruct Hi as [_ Hr0]. lia.
+Qed.
+
+(* ... and the pass that needs one more is refused: when, after such a stretch, a RUN-state pass
+   inside the window needs more charged replacements than the budget left, it raises
+   RestartFreqExceeded; counting from the start of the stretch exactly m - R (at most
+   max_restarts) replacements for abnormal exits were started, and R is 0 again *)
+Theorem window_budget_then_raise m tr s e fuel :
+  1 <= m -> Inv m (rst s) -> calm s tr ->
+  let s1 := run_from s tr in
+  pass_fuel s1 e = Some fuel -> pstate s1 = 0 -> in_window (rst s1) (now s1) ->
+  m - R (rst s1) < Z.of_nat (n_charged (pass_codes s1) 0 fuel) ->
+  snd (step s1 e) = RExc 10
+  /\ Z.of_nat (abn_total s (tr ++ [e])) = m - R (rst s)
+  /\ R (rst (fst (step s1 e))) = 0 /\ T (rst (fst (step s1 e))) = T (rst s).
+Proof.
+  intros Hm Hi Hc s1 Hf Hp Hw Hk.
+  destruct (window_budget_history m tr s Hm Hi Hc) as (A & B & _). fold s1 in A, B.
+  pose proof (limiter_inv_run_from m tr s Hm Hi) as Hi1. fold s1 in Hi1.
+  destruct (pass_budget m s1 e fuel Hf Hp Hm Hi1 Hw) as [_ H2].
+  destruct (H2 Hk) as (C & D & E & _).
+  split; [exact C|]. rewrite abn_total_app. fold s1. cbn [abn_total]. rewrite D. cbn [R T].
+  split; [lia|]. split; [reflexivity|exact B].
+Qed.
+
+(* the same two statements for the states of the pool: any configuration with max_restarts = m >= 1,
+   any history before the stretch *)
+Corollary pool_window_budget c tr0 tr m :
+  c_maxr c = Some m -> 1 <= m -> calm (run c tr0) tr ->
+  let s := run c tr0 in
+  R (rst (run c (tr0 ++ tr))) = R (rst s) + Z.of_nat (abn_total s tr)
+  /\ Z.of_nat (abn_total s tr) <= m - R (rst s) <= m.
+Proof.
+  intros Hc Hm Hcalm s.
+  destruct (window_budget_history m tr s Hm (pool_limiter_inv c tr0 m Hc Hm) Hcalm) as (A & _ & B).
+  unfold run in *. rewrite fold_left_app. split; [exact A|exact B].
 Qed.
